@@ -79,4 +79,20 @@ StableR(S, ac) ==
   LET g == GroundedInternalR(S, ac) IN
   StableLoop(g.S, ac, Seq2(TVseq(g.r)), 1, <<>>)
 
+\* Adf::stable_with_prefilter: a two-valued candidate must first pass the filter of complete (it is a model), only then is its
+\* reduct grounded; candidates that fail the filter cost the restrict calls up to the first failing position and nothing else
+RECURSIVE PrefilterLoop(_, _, _, _, _)
+PrefilterLoop(S, ac, pats, k, acc) ==
+  IF k > Len(pats) THEN R(S, acc)
+  ELSE LET cand == MkSeq([i \in DOMAIN ac |-> IF pats[k][i] = "T" THEN 1 ELSE 0], 1, Len(ac))
+           f == CompleteFilterR(S, ac, cand, 1) IN
+       IF ~f.r THEN PrefilterLoop(f.S, ac, pats, k + 1, acc)
+       ELSE LET red == ReductR(f.S, ac, cand, 1, <<>>)
+                g == GroundedInternalR(red.S, red.r) IN
+            PrefilterLoop(g.S, ac, pats, k + 1, IF TVseq(g.r) = TVseq(cand) THEN Append(acc, cand) ELSE acc)
+
+PrefilterR(S, ac) ==
+  LET g == GroundedInternalR(S, ac) IN
+  PrefilterLoop(g.S, ac, Seq2(TVseq(g.r)), 1, <<>>)
+
 =============================================================================
